@@ -373,6 +373,9 @@ type c10obs struct {
 	promptErr  string
 	didA       bool
 	openMs     int64
+	// idleMs: how long before Open returned the transport had last delivered a read or taken a write;
+	// a timeout with little idle time says nothing (the machine was too slow for the timer)
+	idleMs int64
 }
 
 var c10letter = map[string]string{sim.LoginUser: "u", sim.LoginPass: "w", sim.LoginPhrase: "f", sim.LoginShell: "p", sim.LoginErr: "e", sim.LoginSilence: "q"}
@@ -392,14 +395,21 @@ func runC10case(cs c10case, slow int) c10obs {
 	lg.User, lg.Password, lg.Passphrase = cs.user, cs.pass, cs.phrase
 	lg.Prompt, lg.NL, lg.EchoUser = cs.prompt, cs.nl, cs.echo
 	sr := vlib.NewRng(cs.seed ^ 0x5eed)
+	var seg func(int) int
 	switch cs.segClass {
 	case 1:
-		lg.Seg = sim.SegFixed(1)
+		seg = sim.SegFixed(1)
 	case 2:
-		lg.Seg = sim.SegFixed(cs.segK)
+		seg = sim.SegFixed(cs.segK)
 	case 3, 4:
-		lg.Seg = func(avail int) int { return 1 + sr.Intn(avail+cs.segK)%(cs.segK*3) }
+		seg = func(avail int) int { return 1 + sr.Intn(avail+cs.segK)%(cs.segK*3) }
+	default:
+		seg = func(avail int) int { return avail }
 	}
+	var lastIO time.Time // under the pipe lock: Seg runs for every delivered read, OnWrite for every write
+	lg.Seg = func(avail int) int { lastIO = time.Now(); return seg(avail) }
+	devWrite := lg.Pipe.OnWrite
+	lg.Pipe.OnWrite = func(b []byte) { lastIO = time.Now(); devWrite(b) }
 	total := 0
 	for _, s := range cs.plan {
 		total += len(s.Text) + 4
@@ -419,8 +429,15 @@ func runC10case(cs c10case, slow int) c10obs {
 	}
 	t0 := time.Now()
 	openErr := d.Open()
-	o.openMs = time.Since(t0).Milliseconds()
+	tEnd := time.Now()
+	o.openMs = tEnd.Sub(t0).Milliseconds()
 	o.outcome = errClass(openErr)
+	lg.Snapshot(func() {
+		o.idleMs = tEnd.Sub(t0).Milliseconds()
+		if !lastIO.IsZero() {
+			o.idleMs = tEnd.Sub(lastIO).Milliseconds()
+		}
+	})
 	var starts []int
 	var stream []byte
 	var readLog []int
@@ -592,6 +609,11 @@ func c10hasOracle(res *vlib.Result) bool {
 	return false
 }
 
+// c10inconclusive: Open timed out less than 200 ms after the transport last delivered a read or took
+// a write. On a quiet machine the dialogue is over within a few ms and the shortest timer is 500 ms,
+// so this never holds; under heavy load it means the timer beat the dialogue.
+func c10inconclusive(o c10obs) bool { return o.outcome == "timeout" && o.newErr == "" && o.idleMs < 200 }
+
 type c10finding struct{ kind, detail, sig string }
 
 // c10constsOff: the extracted limits differ from the property's (obligation already broken)
@@ -663,12 +685,14 @@ func c10judge(cs c10case, o c10obs, ans string) (dom bool, fs []c10finding, nont
 				}
 			}
 			// judged whenever the client and the device agreed on what every prompt was (each line the
-			// device got was the credential its state expects), or the dialogue is well formed as read
+			// device got was the credential its state expects — which only tells anything when the three
+			// credentials differ: with user name == password a user name typed at a banner's pseudo
+			// prompt is indistinguishable from a password), or the dialogue is well formed as read
 			allOK := true
 			for _, l := range o.lines {
 				allOK = allOK && l.OK
 			}
-			if shown >= 3 && !cs.malformed && (allOK || dom || cs.canonical) && (o.outcome != "auth" || o.closeCalls < 1) {
+			if shown >= 3 && !cs.malformed && ((allOK && distinct) || dom || cs.canonical) && (o.outcome != "auth" || o.closeCalls < 1) {
 				add("oracle", "third-prompt-not-auth:"+names[k], "the device showed its %s prompt %d times in one Open (dialogue %v) but Open returned %s with %d transport Close calls; the property demands an auth error and a closed transport", names[k], shown, o.kinds, o.outcome, o.closeCalls)
 			}
 		}
@@ -765,7 +789,7 @@ func c10check(c *ctx, cases []c10case) {
 	for i, cs := range cases {
 		d, fs, nt := c10judge(cs, obs[i], ans[i])
 		vs[i] = verdict{d, nt, fs}
-		if len(fs) > 0 {
+		if len(fs) > 0 || c10inconclusive(obs[i]) {
 			failing = append(failing, i)
 		}
 	}
@@ -798,6 +822,12 @@ func c10check(c *ctx, cases []c10case) {
 	}
 	for i, cs := range cases {
 		o, dom, fs, nontriv := obs[i], vs[i].dom, vs[i].fs, vs[i].nontriv
+		if c10inconclusive(o) {
+			// the timer fired while bytes were still arriving (overloaded machine): what the client
+			// would have done with them is unknown; the case is counted, not judged
+			res.Count("inconclusive-timeout-under-load")
+			fs, nontriv = nil, false
+		}
 		caseLine := fmt.Sprintf("c10case %d%s", cs.seed, tier)
 		if cs.canonical {
 			caseLine = fmt.Sprintf("c10canon %d", cs.canonIdx)
